@@ -105,4 +105,4 @@ def check(ctx):
 
 def _is_try_edge(c):
     from lib.prov import is_call
-    return c[0][0] == "discr" and is_call(c[0][1], "core::ops::Try::branch")
+    return c[0][0] == "discr" and is_call(c[0][1], "core::ops::try_trait::Try::branch")
